@@ -225,7 +225,7 @@ func TestVerifC40Seq(t *testing.T) {
 			cl = append(cl, fakes[id])
 		}
 		lb := &LBClient{Clients: cl, Timeout: 30 * time.Second}
-		c40Init(rec, lb)
+		rec.lb = lb // NOT initialised here: the history may change the membership before the first call
 		VerifHook = rec.hook
 		sig := fmt.Sprintf("init=%v ext=%v", b.Init, b.Ext)
 		info := vfRec{"behaviour": b}
